@@ -328,6 +328,19 @@ def inplace_rules(col, rule="C04.R4"):
             if not (a[:1] == ("attr",) and a[2] == "expr" and a[1] in lookups):
                 ok = False
                 facts.append(f"returns {S.show(a)}")
+    # ... looked up only when the reference identifies a task, and only a task that carries an expression
+    member = ("cmp", "in", S.SELF, tasks)
+    for r in sx.of_kind("return"):
+        for a in S.alts(r.value):
+            if a[:1] == ("attr",) and a[2] == "expr":
+                cs = sx.conds(r.nid)
+                guarded = any(c == member for c in cs) or a[1][:1] == ("call",) or \
+                    any(c[:1] == ("cmp",) and c[1] == "is not" and c[3] == ("const", "None") and a[1] in S.alts(c[2]) for c in cs)
+                has_expr = any(S.is_call_of(c, ("glob", "hasattr")) and len(c[2]) == 2 and c[2][1] == ("const", repr("expr")) for c in cs) \
+                    or any(S.is_call_of(c, ("glob", "isinstance")) for c in cs)
+                if not (guarded and has_expr):
+                    ok = False
+                    facts.append(f"`.expr` returned under {[S.show(c) for c in cs]}")
     col.add(rule, "MutableRef._expr#definition-of-this-location", ok and n >= 1, sx.loc(sx.fn),
             "`_expr` is the expression of the task registered under this very reference (manager.tasks[self]), not of a task that "
             "merely writes it (an element's definition is not the container's)", "; ".join(facts))
@@ -487,6 +500,16 @@ def _calls(col, rule="C04.R7"):
     ok = len(p) == 3 and all(v == p[0] for _, v, _, _, _ in fs.get("_func", [])) and all(v == p[1] for _, v, _, _, _ in fs.get("_args", [])) \
         and bool(fs.get("_kwargs")) and all(a in allowed_kw for _, v, _, _, _ in fs["_kwargs"] for a in S.instances(v)) \
         and bool(fs.get("_func")) and bool(fs.get("_args"))
+    if ok and len(p) == 3:
+        isdict = S.fcall("isinstance", p[2], ("glob", "dict"))
+        for _, v, cd, _sx, _ev in fs["_kwargs"]:
+            for a in S.instances(v):
+                if a == S.fcall("tuple", S.mcall(p[2], "items")) and isdict not in cd and len(fs["_kwargs"]) > 1:
+                    ok = False
+                if a == S.fcall("tuple", p[2]) and ("uop", "not", isdict) not in cd and len(fs["_kwargs"]) > 1:
+                    ok = False
+        written = k_sx.cfg.must_pass(k_sx.cfg.ENTRY, k_sx.cfg.EXIT, [e.nid for *_x, e in fs["_kwargs"]])
+        ok = ok and written
     col.add(rule, "CallRef.__cinit__#fields", ok, k_sx.loc(k_sx.fn),
             "CallRef(func, args, kwargs) stores them as _func, _args, _kwargs (keyword arguments as a tuple of (name, value) pairs, in order)",
             str({f: [S.show(v) for _, v, _, _, _ in l] for f, l in fs.items() if f != "_hash"}))
